@@ -38,6 +38,12 @@ SUITES["lbseq"] = dict(
     batches={"quick": 6, "thorough": 16}, timeout={"quick": 400, "thorough": 3000},
 )
 
+SUITES["admin"] = dict(
+    test="TestAdmin", coq_module="Cases.AdminCase", case_type="adm_case", eval="eval_adm_case",
+    cols=["diff", "mon_auth", "mon_filter", "nt_c10", "mon_c11_admin"],
+    batches={"quick": 4, "thorough": 16}, timeout={"quick": 300, "thorough": 3000},
+)
+
 PROPS = {
     "C09": dict(
         props_file="Props/C09.v",
@@ -171,7 +177,8 @@ PROPS["C04"] = dict(
 PROPS["C11"] = dict(
     props_file="Props/C11.v",
     suites=[dict(suite="lbseq", corr=["diff_admin", "diff_begin"], monitors=["mon_c11", "mon_c02_disp"],
-                 classifiers={}, nontrivial="nt_c11")],
+                 classifiers={}, nontrivial="nt_c11"),
+            dict(suite="admin", corr=["diff"], monitors=["mon_c11_admin"], classifiers={}, nontrivial="nt_c10")],
     rule="balancer histories with add (valid / unparsable address / duplicate name / weight 0..4), remove (present / absent names), "
          "set_strategy (5 valid + invalid names) interleaved with requests in flight, List before and after every admin operation; "
          "non-trivial = an admin op fails, repeats a name, removes an absent name or overlaps traffic; distinct = by case hash",
@@ -211,6 +218,24 @@ PROPS["C03"] = dict(
                "and panic recovery in net/http are runtime behaviour the model cannot exhibit.",
     level_note=_LB_NOTE, trusted_base=_LB_TRUST,
     assumptions=["faults reach the balancer as status / transport error / abort (validated for the in-memory transport only)"],
+)
+
+PROPS["C10"] = dict(
+    props_file="Props/C10.v",
+    suites=[dict(suite="admin", corr=["diff"], monitors=["mon_auth", "mon_filter"], classifiers={}, nontrivial="nt_c10")],
+    rule="adminapi.NewMux on a live balancer: 7 path classes x methods, 16 Authorization spellings (prefix of a 300-char token, token "
+         "+1/255/256/257/512 junk bytes, case, double space, two header values, Basic), 20 peer addresses as RemoteAddr with and "
+         "without port (IPv4, IPv6, IPv4-mapped, zone, junk, empty), allow/deny lists from 15 well-formed (overlapping, nested, "
+         "mapped) and 7 malformed entries, forged X-Forwarded-For / X-Real-IP in a third of the requests, JSON bodies valid / partial "
+         "/ malformed; non-trivial = token set with a wrong header, or lists configured; distinct = by case hash",
+    level_text="Theorems: auth accepts exactly 'Bearer '++token; with a token every data endpoint answers 401 and the balancer is "
+               "unchanged otherwise; with lists configured a request passes the filter iff the PEER parses, is in no deny entry and the "
+               "allow list is empty or contains it; a malformed entry refuses everyone; deny wins; the decision is independent of "
+               "request headers. Tie: every request's status, body class and the balancer's strategy + backend list afterwards.",
+    level_note="Trusted: Coq kernel, harness, Model/Admin.v; net.ParseIP / ParseCIDR / SplitHostPort, encoding/json and url.Parse are oracles "
+               "(the harness passes parsed forms); ServeMux path matching is validated by the runs (unknown paths only checked to serve nothing).",
+    trusted_base=["Model/Admin.v (hand-written; tied by the admin suite)", "Go address / JSON / URL parsers as oracles"],
+    assumptions=["requests are driven through mux.ServeHTTP with RemoteAddr set as net/http sets it"],
 )
 
 # properties not claimed, each with a one-line reason (kept current as checks are added)
